@@ -118,36 +118,20 @@ Proof.
       apply IH in H as (-> & -> & ->). simpl. repeat split; lia.
 Qed.
 
-(* the only errors of the line loop: a conflict, or the original text ran out *)
+(* the only error of the line loop is a conflict (a mismatching line, or the original text ran out) *)
 Lemma apply_lines_err hl : forall r ln e,
-  apply_lines hl r ln = inl e -> e = AExhausted \/ exists k, e = AConflict k.
+  apply_lines hl r ln = inl e -> exists k, e = AConflict k.
 Proof.
   induction hl as [|h hl IH]; intros r ln e H; simpl in H; [discriminate|].
   destruct h as [c|c|c].
-  - destruct r as [|o r1]; [inversion H; auto|].
+  - destruct r as [|o r1]; [inversion H; eauto|].
     destruct (bytes_eqb o c); [|inversion H; eauto].
     destruct (apply_lines hl r1 (S ln)) as [e1|[[out1 rest1] ln1]] eqn:E1; [|discriminate].
     inversion H; subst. eapply IH; eauto.
   - destruct (apply_lines hl r ln) as [e1|[[out1 rest1] ln1]] eqn:E1; [|discriminate].
     inversion H; subst. eapply IH; eauto.
-  - destruct r as [|o r1]; [inversion H; auto|].
+  - destruct r as [|o r1]; [inversion H; eauto|].
     destruct (bytes_eqb o c); [|inversion H; eauto]. eapply IH; eauto.
-Qed.
-
-(* if the text is long enough, the only possible error is a conflict *)
-Lemma apply_lines_long hl : forall r ln e,
-  length (old_side hl) <= length r -> apply_lines hl r ln = inl e -> exists k, e = AConflict k.
-Proof.
-  induction hl as [|h hl IH]; intros r ln e L H; simpl in H; [discriminate|].
-  destruct h as [c|c|c]; simpl in L.
-  - destruct r as [|o r1]; [simpl in L; lia|].
-    destruct (bytes_eqb o c); [|inversion H; eauto].
-    destruct (apply_lines hl r1 (S ln)) as [e1|[[out1 rest1] ln1]] eqn:E1; [|discriminate].
-    inversion H; subst. eapply IH; [|eauto]. simpl in L. lia.
-  - destruct (apply_lines hl r ln) as [e1|[[out1 rest1] ln1]] eqn:E1; [|discriminate].
-    inversion H; subst. eapply IH; eauto.
-  - destruct r as [|o r1]; [simpl in L; lia|].
-    destruct (bytes_eqb o c); [|inversion H; eauto]. eapply IH; [|eauto]. simpl in L. lia.
 Qed.
 
 (* ------------------------------------------------------------------ chains of opcodes *)
